@@ -31,15 +31,24 @@ Initial states include directories left behind by earlier crashes (a crash copy
 of one operation is the start state of the next: leftovers in upload/, unlisted
 packs and indices, stale obsolete_packs/).
 
-Mutants this was built against (scratch worktrees, see the final report):
- M1 _commit_write_group: allocate + _save_pack_names moved before finish()
- M2 _execute_pack_operations: _obsolete_packs before _save_pack_names
- M3 _save_pack_names: put_file replaced by non-atomic delete + put_file_non_atomic
- M4 _diff_pack_names: deleted nodes not removed (old packs stay listed, then obsoleted)
- M5 _clear_obsolete_packs: `preserve` ignored / deletes in packs/ instead
- M6 _obsolete_packs: indices moved but the loop skips nothing -> moves packs of the NEW pack
- harmless: reorder of suffixes list in _obsolete_packs is caught by T2a only (trace), the
- oracle stays clean; renaming locals / comprehension rewrites stay clean.
+Finding made with this check (repaired by fix: commit 24f6bb3): `pack(hint=[p])` on pack-0.92 when
+the repacked content of `p` hashes to `p`'s own name: KnitPacker finished the new pack ONTO the listed
+pack (indices rewritten in place, torn during the write), then allocate() raised "Pack already
+exists".  The pack(hint) stream keeps exercising exactly that input (the packer must now abort like
+GCCHKPacker does: upload file closed and deleted); theorem pack_hint_collision_witness is the model's
+witness of why the freshness hypothesis is needed.  A regression is a plain VIOLATION.
+
+Mutants this was built against (scratch worktrees):
+ A  _execute_pack_operations: _obsolete_packs(...) before _save_pack_names  -> oracle, crash index inside the moves
+ B  _save_pack_names: put_file -> put_file_non_atomic                        -> oracle, torn pack-names variant
+ B2 _save_pack_names: delete("pack-names") before put_file                   -> oracle, crash between the two calls
+ C  _diff_pack_names: deleted nodes not removed from disk_nodes              -> oracle (already while building a history)
+ Q  _execute_pack_operations: `if result is None: return` dropped            -> oracle (pack of an optimal single pack loses all revisions)
+ G  GCCHKPacker: already-optimal test inverted (finish onto the listed pack) -> oracle, torn listed index + raised error
+ N  _obsolete_packs: ".rix" missing from the suffix list                      -> T2a only (property not violated): no-failing-input-found
+ F  fix 24f6bb3 reverted (KnitPacker without the listed-name guard)          -> oracle: pack(hint) raises, torn listed index
+ harmless: builder created before lock_names(), comprehension for to_be_obsoleted, renamed locals in
+ _clear_obsolete_packs -> clean.
 """
 import hashlib
 import os
@@ -446,10 +455,10 @@ def do_fetch(path, fmt, upto, decorated=False):
     t.fetch(s, revision_id=src["ids"][upto])
 
 
-def do_pack(path, clean, decorated=False):
+def do_pack(path, clean, decorated=False, hint=None):
     from breezy.repository import Repository
     t = Repository.open(durl(path) if decorated else path)
-    t.pack(clean_obsolete_packs=clean)
+    t.pack(hint=hint, clean_obsolete_packs=clean)
 
 
 def repo_state(path):
@@ -602,10 +611,13 @@ def gen_scenario(rng, i):
         # aim at the autopack trigger
         k = rng.choice([1, 1, 2, 3, max(1, 10 - total % 10), max(1, 10 - total % 10)])
         op = ["f", k]
-    elif r < 0.8:
+    elif r < 0.70:
         op = ["p", False]
-    else:
+    elif r < 0.84:
         op = ["p", True]
+    else:
+        # pack(hint=[one pack]); `twice`: the hinted pack is the result of a previous pack(hint)
+        op = ["ph", rng.randrange(0, 50), rng.random() < 0.6]
     return dict(fmt=fmt, style=style, build=build, op=op, idx=i)
 
 
@@ -628,15 +640,34 @@ def run_scenario(sc):
             if upto + op[1] >= NREV:
                 out["error"] = "history exhausted"
                 return out
+        hint = None
+        if op[0] == "ph":
+            names_b, _c, _r = repo_state(path)
+            if not names_b:
+                out["error"] = "no pack to hint at"
+                return out
+            hint = [names_b[op[1] % len(names_b)]]
+            if op[2]:
+                try:
+                    do_pack(path, False, hint=hint)
+                except Exception as e:
+                    out["prep_raised"] = "%s: %s" % (type(e).__name__, str(e)[:200])
+                names_a, _c, _r = repo_state(path)
+                new = [n for n in names_a if n not in names_b]
+                hint = [new[0]] if new else hint
         names0, counts0, revs0 = repo_state(path)
         lst0 = listing(path)
         snapbase = env.fresh_dir("c04s")
         del _plan_log[:]
         REC.start(os.path.join(path, ".bzr", "repository"), snapbase)
         raised = None
+        sc = dict(sc, hint=hint)
+        out["sc"] = sc
         try:
             if op[0] == "f":
                 do_fetch(path, fmt, upto + op[1], decorated=True)
+            elif op[0] == "ph":
+                do_pack(path, False, decorated=True, hint=hint)
             else:
                 do_pack(path, op[1], decorated=True)
         except Exception as e:
@@ -645,6 +676,9 @@ def run_scenario(sc):
             final = REC.stop()
         out.update(analyse(sc, path, names0, counts0, revs0, lst0, list(REC.events), REC.snaps + [final],
                            list(_plan_log), truth, raised))
+        if out.get("prep_raised"):
+            out["violations"].append(dict(k=None, what="pack(hint=%r) on the freshly built repository raised %s"
+                                          % (hint, out["prep_raised"])))
         shutil.rmtree(snapbase, ignore_errors=True)
         shutil.rmtree(path, ignore_errors=True)
     except Exception as e:
@@ -725,7 +759,7 @@ def analyse(sc, path, names0, counts0, revs0, lst0, events, snaps, plan_log, tru
         if len(revs_new) != exp or not set(revs0) <= set(revs_new):
             res["violations"].append(dict(k=len(snaps) - 1, what="after the operation %d revisions are listed, expected %d"
                                           % (len(revs_new), exp)))
-    if op[0] == "p" and revs_new is not None and revs_new != revs0:
+    if op[0] in ("p", "ph") and revs_new is not None and revs_new != revs0:
         res["violations"].append(dict(k=len(snaps) - 1, what="pack changed the revision set"))
     # every crash copy
     ops = []
@@ -846,8 +880,12 @@ def analyse(sc, path, names0, counts0, revs0, lst0, events, snaps, plan_log, tru
             fresh.append(base + len(fresh) + 100)
         # the packer aborted (single pack already optimal): upload file deleted, no new pack
         optimal = any(t.startswith("rm:u") for t in ops)
-        line = "pack %s %s %s - %s %s %s %s %s" % (chk, J(listed), J(files), J(listed), J(listed),
-                                                   "T" if optimal else "F", "T" if op[1] else "F", J(fresh[:2]))
+        hint = "~" if op[0] == "p" else J([nb.map[h] for h in sc["hint"] if h in nb.map])
+        clean = op[0] == "p" and op[1]
+        line = "pack %s %s %s - %s %s %s %s %s %s" % (chk, J(listed), J(files), J(listed), J(listed), hint,
+                                                      "T" if optimal else "F", "T" if clean else "F", J(fresh[:2]))
+        if len(fresh) >= 2 and fresh[1] in listed:
+            res["collision"] = True     # distribution counter only: a pack was finished onto a listed name
     res["line"] = line
     # the order in which _clear_obsolete_packs deletes is the order of list_dir: runs of deletions in
     # obsolete_packs/ are compared as sets (after checking that each one removes exactly its file)
@@ -925,7 +963,9 @@ def process(ctx, results):
             continue
         case = dict(scenario=sc)
         ctx.count("op:%s" % ("fetch" if sc["op"][0] == "f" else "commit" if sc["op"][0] == "c" else
-                             "pack-clean" if sc["op"][1] else "pack"))
+                             "pack-hint" if sc["op"][0] == "ph" else "pack-clean" if sc["op"][1] else "pack"))
+        if r.get("collision"):
+            ctx.count("new-pack-name-already-listed")
         ctx.count("fmt:%s" % sc["fmt"])
         ctx.count("autopack" if r["autopack"] else "no-autopack")
         ctx.count("crash-copies", r["nsnaps"])
@@ -955,7 +995,7 @@ def process(ctx, results):
 
 def run(ctx, n=None):
     register()
-    n = n or ctx.pick(32, 300)
+    n = n or ctx.pick(26, 150)
     rng = ctx.rng
     scs = [gen_scenario(rng, i) for i in range(n)]
     for sc in scs:
